@@ -7,6 +7,7 @@ import (
 	"errors"
 	"hash"
 	"sort"
+	"sync"
 	"time"
 )
 
@@ -412,4 +413,12 @@ func M_ctx_WithDeadline(parent context.Context, d time.Time) (context.Context, c
 }
 func M_ctx_WithCancelCause(parent context.Context) (context.Context, context.CancelCauseFunc) {
 	return parent, func(error) {}
+}
+
+// M_cond_Wait: Wait releases the lock and re-acquires it; what other
+// goroutines do in between is supplied by the harness through the
+// OnUnlock/OnLock hooks of the mutex (havoc under the rely condition).
+func M_cond_Wait(c *sync.Cond) {
+	c.L.Unlock()
+	c.L.Lock()
 }
